@@ -157,7 +157,8 @@ def project_sig(res, variant):
         if fe is None:
             continue
         if fe[0].startswith("W") and fe[1] == "lockT" and stage.get(fe[0]) == "body":
-            L.append("obs path %s %s" % (fe[0][1:], "reading" if polled.get(fe[0]) else "closing"))
+            if opts.get("pers") != "pcp":       # a copy (stub pcp_client) does not poll: the path is not observable
+                L.append("obs path %s %s" % (fe[0][1:], "reading" if polled.get(fe[0]) else "closing"))
             stage[fe[0]] = "res"
         if kind == "E" and s is not None:
             L.append("st %s %s %s %s %s" % (s["tc"], keep_names(s["R"]), keep_names(s["P"]), keep_names(s["X"]),
@@ -340,8 +341,8 @@ def analyse(res):
 def expected_out(case, i):
     """what host i's command writes on stdout according to its script (hosts whose connect succeeds)"""
     h = case["hosts"][i]
-    if h.get("connect", "ok") != "ok":
-        return None
+    if h.get("connect", "ok") != "ok" or (case.get("opts") or {}).get("pers") == "pcp":
+        return None                     # nothing is relayed for a refused host / by the stub copy protocol
     return b"".join(bytes.fromhex(d) for _, d in h.get("out", []) if d not in ("EOF", "ERR"))
 
 
@@ -508,14 +509,17 @@ def offenders(res, base):
                             h["upd_unlock"] is not None and h["upd_unlock"] > c:
                         out.append(("canceled-host-ran", "host %d was canceled while connecting (state CANCELED, counted in the "
                                     "message) and its command output was relayed all the same" % i))
-                    if marked and h["cbegin"] is not None and h["cbegin"] > c:
+                    # a host that had marked itself RCMD before the cancel is "still connecting" by pdsh's books even
+                    # if rcmd_connect itself begins a moment later (it then drops the connection): not judged
+                    if marked and h["cbegin"] is not None and h["cbegin"] > c and \
+                            not (h["rcmd_lock"] is not None and h["rcmd_lock"] < c):
                         sig = "canceled-host-connected:%s" % ("created-before-cancel" if h["create"] is not None and h["create"] < c
                                                              else "created-after-cancel")
                         out.append((sig, "host %d was canceled (state CANCELED, counted in the message) at step %d and is "
                                          "connected afterwards (thread created at %s)" % (i, c, h["create"])))
                 if ep["canc"] is not None:
-                    unbegun = [i for i, h in enumerate(H) if h["cbegin"] is None or h["cbegin"] > c]
-                    inconn = [i for i, h in enumerate(H) if h["cbegin"] is not None and h["cbegin"] < c and
+                    unbegun = [i for i, h in enumerate(H) if h["rcmd_lock"] is None or h["rcmd_lock"] > c]
+                    inconn = [i for i, h in enumerate(H) if h["rcmd_lock"] is not None and h["rcmd_lock"] < c and
                               (h["upd_unlock"] is None or h["upd_unlock"] > c) and (h["res_lock"] is None or h["res_lock"] > c)]
                     begun_after = [i for i in unbegun if H[i]["cbegin"] is not None]
                     if status == "ok" and len(begun_after) > len(unbegun) + len(inconn) - ep["canc"]:
@@ -615,6 +619,8 @@ def gen_case(rng, nmax):
     c["opts"] = {"labels": 1 if rng.random() < 0.8 else 0, "sopt": 1 if rng.random() < 0.15 else 0,
                  "S": 1 if rng.random() < 0.3 else 0, "batch": 1 if rng.random() < 0.35 else 0, "ct": 0, "ut": 0,
                  "tstates": 1}
+    if rng.random() < 0.08:
+        c["opts"]["pers"] = "pcp"       # pdcp personality: workers are _rcp_thread (same protocol, own code)
     return c
 
 
